@@ -118,6 +118,37 @@ func c03FinalizeAfterHistory(x *mc.Cell, pull bool) {
 			if complete == nil || !complete.IsPaused() {
 				x.Violate("C03", fmt.Sprintf("finalizing-without-paused-complete;sent=%v;pull=%v;last=%s", complete != nil, pull, last(log)), ctxs(d, after), rep)
 			}
+			// still not released: the application may lower the limit to what has moved (dropping the finalization
+			// requirement, but the reached limit keeps the request paused) and send voucher results; whatever Complete
+			// message goes out while the responder sits in Finalizing, paused, must say paused
+			post := []string{"update(limit reached, requirement dropped)", "send-voucher-result"}
+			for step := 0; step < 2; step++ {
+				k := c.Choose(len(post)+1, fmt.Sprintf("post%d", step))
+				if k == len(post) {
+					break
+				}
+				log = append(log, "then "+post[k])
+				mk = cur.Mark()
+				switch post[k] {
+				case "update(limit reached, requirement dropped)":
+					_ = cur.Mgr.UpdateValidationStatus(context.Background(), chid, datatransfer.ValidationResult{Accepted: true, DataLimit: 5})
+				case "send-voucher-result":
+					_ = cur.Mgr.SendVoucherResult(context.Background(), chid, doubles.Voucher("R", fmt.Sprintf("receipt-%d", step)))
+				}
+				mc.Wait()
+				d = cur.Since(mk)
+				now, _ := cur.Vec(chid)
+				if now.Status != datatransfer.Finalizing || !now.RPaused {
+					x.Violate("C03", fmt.Sprintf("left-finalizing-without-release;status=%s;rpaused=%v;pull=%v;last=%s", datatransfer.Statuses[now.Status], now.RPaused, pull, post[k]), ctxs(d, now), rep)
+					return
+				}
+				for _, sm := range d.Sends {
+					if r, ok := sm.Msg.(datatransfer.Response); ok && r.IsComplete() && !r.IsPaused() {
+						x.Violate("C03", fmt.Sprintf("unpaused-complete-from-a-paused-finalizing-responder;pull=%v;op=%s", pull, post[k]),
+							"the responder is still in Finalizing, reporting itself paused, yet it announced an un-paused Complete (its final word): "+ctxs(d, now), rep)
+					}
+				}
+			}
 			// the release
 			mk = cur.Mark()
 			_ = cur.Mgr.UpdateValidationStatus(context.Background(), chid, datatransfer.ValidationResult{Accepted: true})
